@@ -581,3 +581,193 @@ Proof.
   change (unescape_or_raw k_at) with k_at. cbn [lookup qget option_map show].
   now destruct (str_eqb k_at k).
 Qed.
+
+(* ---------- a registry that writes its link query by escaping ---------- *)
+
+(* url.Values-style rendering of pairs: key=value joined by '&', both escaped *)
+Definition enc_pairs (l : list (str * str)) : str := join [c_amp] (map new_param l).
+
+Theorem parse_enc_pairs l : Forall kv_ok l -> parse_query_lenient (enc_pairs l) = l.
+Proof.
+  intro H. rewrite parse_query_lenient_eq. unfold enc_pairs.
+  rewrite raw_params_join.
+  - rewrite map_map. induction H as [|kv l' Hkv _ IH]; simpl; [reflexivity|].
+    rewrite (parse_new_param kv Hkv). now f_equal.
+  - induction H as [|kv l' Hkv _ IH]; simpl; constructor; [now apply new_param_ok|exact IH].
+Qed.
+
+Definition shown (q : query) : list (str * str) := map (fun kv => (fst kv, show (snd kv))) q.
+Definition query_ok (q : query) : Prop := Forall (fun kv => Forall byte_ok (fst kv) /\ Forall byte_ok (show (snd kv))) q.
+
+Lemma shown_ok q : query_ok q -> Forall kv_ok (shown q).
+Proof. intro H. unfold shown. induction H as [|kv l Hkv _ IH]; simpl; constructor; [exact Hkv|exact IH]. Qed.
+
+(* the escaped rendering of an association list represents it *)
+Theorem repr_enc q : query_ok q -> repr (enc_pairs (shown q)) q.
+Proof.
+  intros H k. rewrite parse_enc_pairs.
+  - induction q as [|[k' v] q IH]; simpl; [reflexivity|].
+    inversion H; subst. destruct (str_eqb k' k); [reflexivity|now apply IH].
+  - now apply shown_ok.
+Qed.
+
+Lemma esc_char_query_char c : esc_char c = true -> query_char c = true.
+Proof.
+  intro H. unfold esc_char, unreserved, is_alpha, is_digit, c_plus, c_pct in H.
+  unfold query_char, c_hash.
+  repeat (rewrite ?orb_true_iff, ?andb_true_iff, ?N.leb_le, ?N.eqb_eq in H).
+  rewrite !andb_true_iff, !N.leb_le, negb_true_iff, N.eqb_neq. lia.
+Qed.
+
+Lemma forallb_join (P : N -> bool) sep l :
+  forallb P sep = true -> Forall (fun x => forallb P x = true) l -> forallb P (join sep l) = true.
+Proof.
+  intros Hs H. induction H as [|x l Hx _ IH]; [reflexivity|].
+  destruct l as [|y l]; [exact Hx|].
+  change (join sep (x :: y :: l)) with (x ++ sep ++ join sep (y :: l)).
+  rewrite !forallb_app. now rewrite Hx, Hs, IH.
+Qed.
+
+Lemma forallb_impl (P Q0 : N -> bool) s :
+  (forall c, P c = true -> Q0 c = true) -> forallb P s = true -> forallb Q0 s = true.
+Proof.
+  intros I. induction s as [|c s IH]; simpl; [reflexivity|]. intro H.
+  apply andb_true_iff in H as [A B0]. now rewrite (I c A), (IH B0).
+Qed.
+
+Lemma enc_pairs_query_char l : Forall kv_ok l -> forallb query_char (enc_pairs l) = true.
+Proof.
+  intro H. unfold enc_pairs. apply forallb_join; [reflexivity|].
+  induction H as [|kv l' [Hk Hv] _ IH]; simpl; constructor; [|exact IH].
+  unfold new_param. rewrite forallb_app. cbn [forallb].
+  rewrite (forallb_impl esc_char query_char _ esc_char_query_char (query_escape_chars _ Hk)).
+  rewrite (forallb_impl esc_char query_char _ esc_char_query_char (query_escape_chars _ Hv)).
+  reflexivity.
+Qed.
+
+(* ---------- one step, end to end ---------- *)
+
+(* A registry answers the request [base] with a link, in one of the four forms, to path P and the
+   escaped rendering of the association list q'.  Then the next request of the string level
+   (parseLink, net/url resolution, re-parse, setQueryParams) goes to P and its raw query
+   represents the request the association-list model builds for the target (P, q'). *)
+Theorem step_simulation c base P segs q' t trailer hc ht :
+  let Q := enc_pairs (shown q') in
+  link_form base P Q t -> query_ok q' ->
+  clean_path P segs -> forallb path_char P = true ->
+  s_host base = hc :: ht -> forallb host_char (s_host base) = true -> host_ok (s_host base) = true ->
+  link_ok t -> contains c_gt t = false ->
+  exists raw, next_request c base (c_lt :: t ++ c_gt :: trailer) = NNext P raw /\
+              repr raw (u_query (mk_request c (mkUrl P q') [])).
+Proof.
+  intros Q F Hq C HP Eh Hh Hok HL Hgt.
+  pose proof (shown_ok q' Hq) as KV.
+  exists (request_query c Q []). split.
+  - eapply next_request_link_forms; eauto. now apply enc_pairs_query_char.
+  - apply request_query_refines; [constructor|]. now apply repr_enc.
+Qed.
+
+(* ---------- the page loop on strings refines the page loop on association lists ---------- *)
+
+Section Refinement.
+  Variable sch host : str.
+  Variable serve_s : nat -> sreq -> response.
+  Variable serve : nat -> url -> response.
+  Variable resolve : url -> str -> option url.
+  Variable cb_fail : nat -> bool.
+  Variable c : cfg.
+
+  (* a raw request and a model request that a registry cannot tell apart *)
+  Definition same_request (rs : sreq) (rq : url) : Prop :=
+    sr_path rs = u_path rq /\ repr (sr_query rs) (u_query rq).
+
+  (* the server answers related requests alike *)
+  Hypothesis Hserve : forall i rs rq, same_request rs rq -> serve_s i rs = serve i rq.
+  (* net/url (as modelled) and the abstract resolver of the model agree on the links served *)
+  Hypothesis Hlink : forall i rs rq t,
+    same_request rs rq -> parse_link (rs_link (serve i rq)) = LTarget t ->
+    match resolve_ref (mkS sch host (sr_path rs) (sr_query rs)) t, resolve rq t with
+    | ROk u, Some u' => s_path u <> [] /\ s_path u = u_path u' /\ repr (s_query u) (u_query u')
+    | RErr, None => True
+    | _, _ => False
+    end.
+
+  Theorem loop_s_refines :
+    forall fuel i k p raw q last,
+      repr raw q -> Forall byte_ok last ->
+      exists ts, loop_s sch host serve_s cb_fail c fuel i k p raw last = Some ts /\
+                 let t := loop serve resolve cb_fail c fuel i k (mkUrl p q) last in
+                 st_pages ts = t_pages t /\ st_out ts = t_out t /\
+                 Forall2 same_request (st_reqs ts) (t_reqs t).
+  Proof.
+    induction fuel as [|fuel IH]; intros i k p raw q last R Hl.
+    { eexists. split; [reflexivity|]. simpl. repeat split; constructor. }
+    cbn [loop_s loop]. cbv zeta.
+    set (rs := mkSR p (request_query c raw last)).
+    set (rq := mk_request c (mkUrl p q) last).
+    assert (SR : same_request rs rq).
+    { split; [reflexivity|]. now apply request_query_refines. }
+    rewrite (Hserve i rs rq SR).
+    destruct (handle c (serve i rq)) as [e|page] eqn:H.
+    { eexists. split; [reflexivity|]. simpl. repeat split. repeat constructor; apply SR. }
+    destruct (delivered c page && cb_fail k).
+    { eexists. split; [reflexivity|]. simpl. repeat split. repeat constructor; apply SR. }
+    destruct (parse_link (rs_link (serve i rq))) as [| | |t] eqn:PL;
+      try (eexists; split; [reflexivity|]; simpl; repeat split; repeat constructor; apply SR).
+    pose proof (Hlink i rs rq t SR PL) as HL.
+    destruct (resolve_ref (mkS sch host (sr_path rs) (sr_query rs)) t) as [u| |] eqn:RR;
+      destruct (resolve rq t) as [u'|] eqn:RA; try contradiction.
+    - destruct HL as (Hne & Hp & Hr). destruct u' as [p' q']. cbn [u_path u_query] in *.
+      destruct (IH (S i) (if delivered c page then S k else k) (s_path u) (s_query u) q' [] Hr ltac:(constructor))
+        as (ts & E & A & B0 & D).
+      destruct (s_path u) eqn:SP; [contradiction|]. rewrite <- SP in *.
+      rewrite E. eexists. split; [reflexivity|].
+      rewrite Hp in A, B0, D. unfold prepend. cbn [st_pages st_out st_reqs t_pages t_out t_reqs].
+      rewrite A, B0. repeat split. constructor; [exact SR|exact D].
+    - eexists. split; [reflexivity|]. simpl. repeat split. repeat constructor; apply SR.
+  Qed.
+End Refinement.
+
+Lemma Forall2_len {A B} (R : A -> B -> Prop) l1 l2 : Forall2 R l1 l2 -> length l1 = length l2.
+Proof. induction 1; simpl; congruence. Qed.
+
+(* exactly once, stated for the loop on strings: whatever string-level server answers like the
+   registry model and whose links net/url resolves like the abstract resolver *)
+Theorem string_loop_exactly_once :
+  forall (sch host : str) (serve_s : nat -> sreq -> response)
+         (L : list item) (cap : nat) (ds : nat -> decision)
+         (render : nat -> url -> url -> str) (trailer : nat -> str)
+         (resolve : url -> str -> option url) (c : cfg) (cu : cursor) (npath : nat -> str -> str) (vis : item -> bool)
+         (path last0 : str) (fuel : nat),
+    cursor_ok cu ->
+    c_kind c <> KReferrers ->
+    NoDup (map fst L) -> (forall it, In it L -> fst it <> []) ->
+    (forall i base x, In x (map fst L) ->
+       contains c_gt (render i base (link_target ds cu npath i base x)) = false) ->
+    (forall i base x, In x (map fst L) ->
+       resolve base (render i base (link_target ds cu npath i base x)) = Some (link_target ds cu npath i base x)) ->
+    (forall i, (Z.of_N (d_doc_len (ds i)) <= eff_limit (c_limit c))%Z) ->
+    (length (after last0 L) < fuel)%nat ->
+    Forall byte_ok last0 ->
+    let serve := reg_serve (c_kind c) cu npath vis L cap ds render trailer in
+    (forall i rs rq, same_request rs rq -> serve_s i rs = serve i rq) ->
+    (forall i rs rq t, same_request rs rq -> parse_link (rs_link (serve i rq)) = LTarget t ->
+       match resolve_ref (mkS sch host (sr_path rs) (sr_query rs)) t, resolve rq t with
+       | ROk u, Some u' => s_path u <> [] /\ s_path u = u_path u' /\ repr (s_query u) (u_query u')
+       | RErr, None => True
+       | _, _ => False
+       end) ->
+    exists ts, loop_s sch host serve_s (fun _ => false) c fuel 0 0 path [] last0 = Some ts /\
+               st_out ts = Done /\ concat (st_pages ts) = filter vis (after last0 L) /\
+               (length (st_reqs ts) <= S (length (after last0 L)))%nat.
+Proof.
+  intros sch host serve_s L cap ds render trailer resolve c cu npath vis path last0 fuel
+         Hcu K Hnd Hne Hgt Hres Hfit Hfuel Hl serve Hs Hk.
+  destruct (listing_exactly_once L cap ds render trailer resolve c cu npath vis path last0 fuel
+              Hcu K Hnd Hne Hgt Hres Hfit Hfuel) as (O & P & _ & N).
+  destruct (loop_s_refines sch host serve_s serve resolve (fun _ => false) c Hs Hk
+              fuel 0%nat 0%nat path [] [] last0 repr_nil Hl) as (ts & E & A & B0 & D).
+  exists ts. split; [exact E|]. fold serve in O, P, N. cbv zeta in A, B0, D.
+  rewrite A, B0. repeat split; auto.
+  rewrite (Forall2_len _ _ _ D). exact N.
+Qed.
